@@ -29,9 +29,16 @@ LEVEL_NOTE = (
 )
 
 
+def _layout_or_squeeze(idx):
+    items = idx if isinstance(idx, tuple) else (idx,)
+    return all(i is None or i is Ellipsis or i == 0 or (isinstance(i, slice) and i.start is None and i.stop is None and i.step is None) for i in items)
+
+
 def strip_layout(t):
     while isinstance(t, T.Term):
         if t.op in ("np.reshape", "np.asarray", "np.transpose") and t.args:
+            t = t.args[0]
+        elif t.op == "getitem" and _layout_or_squeeze(t.args[1]) and not isinstance(t.args[1], int):
             t = t.args[0]
         elif t.op == "attr" and t.args[1] == "T":
             t = t.args[0]
@@ -40,6 +47,38 @@ def strip_layout(t):
         else:
             break
     return t
+
+
+def consumer_shapes(name, h, rv, offset_term):
+    """Shape-check the offset f - J*m with the handler's documented block layout (domain A).
+
+    Handlers work on (n, d) arrays: fx is (n_out, d); the dense block is (n_out, d, n_in, d), the trace block (n_out, n_in),
+    the diagonal block (d, n_out, n_in).  The mean is (n.d,) / (n, d) / (d, n) for dense / isotropic / block-diagonal."""
+    from .. import adomain as AD
+
+    env = AD.AEnv()
+    n_in, n_out, d = AD.dim("n_in"), AD.dim("n_out"), AD.dim("d")
+    fx, J = T.mk("getitem", (h, 0)), T.mk("getitem", (h, 1))
+    mf = T.mk("attr", (rv, "mean_flat"))
+    if "Isotropic" in name:
+        env.declare(fx, AD.AT([AD.axis(n_out), AD.axis(d)]))
+        env.declare(J, AD.AT([AD.axis(n_out), AD.axis(n_in)]))
+        env.declare(mf, AD.AT([AD.axis(n_in), AD.axis(d)]))
+        want = [n_out, d]
+    elif "BlockDiag" in name:
+        env.declare(fx, AD.AT([AD.axis(n_out), AD.axis(d)]))
+        env.declare(J, AD.AT([AD.axis(d), AD.axis(n_out), AD.axis(n_in)]))
+        env.declare(mf, AD.AT([AD.axis(d), AD.axis(n_in)]))
+        want = [d, n_out]
+    else:
+        return True, "dense: materialised Jacobian reshaped to a matrix (layout checked in C17)"
+    t = env.of(offset_term)
+    if t is None:
+        return None, f"offset {T.show(offset_term, 4)} could not be shape-typed ({[u[1] for u in env.unknown[:2]]})"
+    if env.errors:
+        return False, f"offset {T.show(offset_term, 4)}: {env.errors[0]}"
+    ok = [ax.size for ax in t.axes] == want
+    return ok, f"offset f - J*m : {AD.show(t)}"
 
 
 def first_rec(v):
@@ -289,6 +328,9 @@ def linearize_rules(chk, S, r5):
             lhs, rhs = s_.args
             if fx not in list(T.subterms(lhs)):
                 continue
+            rhs = strip_layout(rhs)
+            if not isinstance(rhs, T.Term):
+                continue
             if rhs.op == "matmul":
                 Jp, P = rhs.args
             elif rhs.op in ("np.einsum", "linalg.einsum") and len(rhs.args) == 3:
@@ -307,8 +349,8 @@ def linearize_rules(chk, S, r5):
         if "Isotropic" in name:
             d = T.mk("getitem", (T.mk("attr", (mf, "shape")), 1))
             r5.require(Jp is T.mk("div", (J, d)), f"{name}.linearize trace / d", "trace-averaged Jacobian: trace divided by the state dimension d", f"linop = {T.show(Jp, 4)}", where_of(Jp, where))
-        if "BlockDiag" in name:
-            r5.require(rhs.args[0] == "din,dn->di", f"{name}.linearize per-dimension contraction", "einsum 'din,dn->di'", f"einsum {rhs.args[0]!r}", where_of(rhs, where))
+        okc, detc = consumer_shapes(name, h, rv, s_)
+        r5.require(okc, f"{name}.linearize consumer layout", detc, detc, where_of(s_, where))
         # the function handed to the handler evaluates the residual on the first num coefficients at t
         fn = h.args[2]
         probe = A("probe")
